@@ -32,6 +32,9 @@
 //     or a constructor (a function all of whose returns are such values) and not yet stored,
 //     sent, captured or passed to something that stores it; or a parameter of an unexported
 //     function all of whose call sites pass such a value.
+//   - memory reachable from shared fields (backing arrays, maps, pointees; references that
+//     leave the lock region they were loaded in): alias.go, which emits the `escapes` table,
+//     `externalUses`, `funcValueUses` and `astWriters` into the same file.
 package main
 
 import (
@@ -202,6 +205,7 @@ func (w *world) load(path string) (*pkgInfo, error) {
 	p.info = &types.Info{
 		Types: map[ast.Expr]types.TypeAndValue{}, Defs: map[*ast.Ident]types.Object{},
 		Uses: map[*ast.Ident]types.Object{}, Selections: map[*ast.SelectorExpr]*types.Selection{},
+		Implicits: map[ast.Node]types.Object{},
 	}
 	conf := types.Config{Importer: w, Error: func(err error) { w.typeErrs = append(w.typeErrs, err.Error()) }}
 	tp, _ := conf.Check(path, w.fset, p.files, p.info)
@@ -266,6 +270,7 @@ type funcInfo struct {
 	ownLocals  map[*types.Var]bool // locals that may hold the owned instance
 	ownDerived map[*types.Var]bool // parameters of an owned type and locals assigned from them
 	isCtor     int                 // 0 unknown, 1 yes, 2 no, 3 in progress
+	heldAt     map[ast.Node]held   // locks taken inside this function that are held at a statement / expression (alias.go)
 }
 
 func funcKey(f *types.Func) string {
@@ -430,6 +435,9 @@ func merge(outs []held, base held) held {
 }
 
 func (a *fnAnalyzer) stmt(s ast.Stmt, h held) (held, bool) {
+	if s != nil && a.fi.heldAt != nil {
+		a.fi.heldAt[s] = h
+	}
 	switch s := s.(type) {
 	case nil:
 		return h, false
@@ -586,6 +594,9 @@ func (a *fnAnalyzer) node(n ast.Node, h held) {
 		return
 	}
 	ast.Inspect(n, func(x ast.Node) bool {
+		if x != nil && a.fi.heldAt != nil {
+			a.fi.heldAt[x] = h
+		}
 		switch x := x.(type) {
 		case *ast.FuncLit:
 			a.stmts(x.Body.List, h.copy())
@@ -1385,7 +1396,7 @@ type rowKey struct {
 }
 
 func leanIdent(s string) string {
-	s = strings.NewReplacer(".", "_", "-", "_", "/", "_").Replace(s)
+	s = strings.NewReplacer("[]", "_elem", ".", "_", "-", "_", "/", "_").Replace(s)
 	return s
 }
 
@@ -1465,7 +1476,7 @@ func main() {
 				if !ok {
 					continue
 				}
-				fi := &funcInfo{obj: obj, key: funcKey(obj), decl: fd, p: p, parent: map[ast.Node]ast.Node{}}
+				fi := &funcInfo{obj: obj, key: funcKey(obj), decl: fd, p: p, parent: map[ast.Node]ast.Node{}, heldAt: map[ast.Node]held{}}
 				var stack []ast.Node
 				ast.Inspect(fd, func(n ast.Node) bool {
 					if n == nil {
@@ -1600,6 +1611,9 @@ func main() {
 		}
 	}
 
+	// escape / alias analysis of the memory reachable from shared fields (alias.go)
+	alias := w.aliasAnalysis(fis, func(fi *funcInfo, v *types.Var, pos token.Pos) bool { return freshAt(fi, v, pos, paramFresh) })
+
 	// contexts
 	type ctxKey struct {
 		fn   *types.Func
@@ -1701,6 +1715,14 @@ func main() {
 				continue
 			}
 			pushOwn(callee, c.role, union(c.held, cs.held), cs.ownAlways || (c.own && cs.ownIfCtx))
+		}
+	}
+
+	for k := range alias.rows {
+		for _, e := range strings.Split(k.locks, ";") {
+			if i := strings.LastIndex(e, "/"); i > 0 {
+				locksSeen[e[:i]] = true
+			}
 		}
 	}
 
@@ -1922,6 +1944,8 @@ func main() {
 		fmt.Fprintf(&b, "(%q, .%s, %s)", k.strct, k.role, strList(lits[k], 0))
 	}
 	fmt.Fprintf(&b, "]\n\n")
+
+	alias.output(&b, fis, boolS, strList, locksLean, maxSites)
 
 	sort.Strings(w.unsup)
 	fmt.Fprintf(&b, "/-- constructs the translator does not understand (must be empty) -/\ndef unsupported : List String := %s\n\n", strList(w.unsup, 0))
